@@ -143,7 +143,10 @@ class TreeDriver:
                          'children': frozenset()}
             else:
                 xml = out[0].body[0]
-                kids = frozenset(re.findall(r'<node name="([^"]*)"\s*/>', xml))
+                kid_list = re.findall(r'<node name="([^"]*)"\s*/>', xml)
+                kids = frozenset(kid_list)
+                if len(kid_list) != len(kids):
+                    kids = frozenset(kids | {'listed %d times: %s' % (kid_list.count(k), k) for k in kids if kid_list.count(k) > 1})
                 names = set(re.findall(r'<interface name="([^"]*)"', xml)) - {
                     'org.freedesktop.DBus.Introspectable', 'org.freedesktop.DBus.Peer', 'org.freedesktop.DBus.ObjectManager'}
                 own = '-' if not names else ([k for k, e in EXPECT.items() if set(e) == names] or ['?' + repr(sorted(names))])[0]
